@@ -30,7 +30,7 @@ def classify(v):
 def run(ctx):
     r = ctx.tlc_ok("ValuesCheck", CFG % "export", workers=1, timeout=900)
     obs = ctx.scratch + "/c09_obs.ndjson"
-    ctx.driver("val-obs", ["-in", ctx.specfile("c09_universe.ndjson"), "-out", obs, "-subsets", 3000 if ctx.tier == "thorough" else 400, "-seed", ctx.seed])
+    ctx.driver("val-obs", ["-in", ctx.specfile("c09_universe.ndjson"), "-out", obs, "-subsets", 20000 if ctx.tier == "thorough" else 400, "-seed", ctx.seed])
     import shutil
     shutil.copy(obs, ctx.specfile("c09_obs.ndjson"))
     r2 = ctx.tlc_ok("ValuesCheck", CFG % "check", workers=1, timeout=3000, heap="16g")
